@@ -1,0 +1,42 @@
+//go:build verif
+
+// Export shims for the verification harness under /verif (build tag "verif" only), property C04:
+// xDS request/ACK/NACK handling.  Add-only; nothing here is compiled into a normal build.
+package xds
+
+import (
+	discovery "github.com/envoyproxy/go-control-plane/envoy/service/discovery/v3"
+
+	"istio.io/istio/pilot/pkg/model"
+	"istio.io/istio/pkg/util/sets"
+)
+
+// VerifC04NewConnection builds a bare Connection (no DiscoveryServer) around proxy, the way
+// TestShouldRespondDelta does.
+func VerifC04NewConnection(id string, proxy *model.Proxy, stream DiscoveryStream, delta DeltaDiscoveryStream) *Connection {
+	conn := newConnection("", stream)
+	conn.SetID(id)
+	conn.proxy = proxy
+	conn.deltaStream = delta
+	return conn
+}
+
+// VerifC04ShouldRespondDelta exposes shouldRespondDelta.
+func VerifC04ShouldRespondDelta(con *Connection, request *discovery.DeltaDiscoveryRequest) bool {
+	return shouldRespondDelta(con, request)
+}
+
+// VerifC04SendDelta exposes (*Connection).sendDelta.
+func VerifC04SendDelta(con *Connection, res *discovery.DeltaDiscoveryResponse, newResourceNames sets.String) error {
+	return con.sendDelta(res, newResourceNames)
+}
+
+// VerifC04DeltaWatchedResources exposes deltaWatchedResources.
+func VerifC04DeltaWatchedResources(existing sets.String, request *discovery.DeltaDiscoveryRequest) (sets.String, bool, bool) {
+	return deltaWatchedResources(existing, request)
+}
+
+// VerifC04RequiresResourceNamesModification exposes requiresResourceNamesModification.
+func VerifC04RequiresResourceNamesModification(url string) bool {
+	return requiresResourceNamesModification(url)
+}
